@@ -225,6 +225,15 @@ func (e *c12Env) run(c c12Case) (obs, bad string) {
 						panic(fmt.Sprintf("VERIF-C12: ParseOTPAuthURL modified the caller's URL: %q -> %q (host %q -> %q)", beforeText, pu.String(), before.Host, pu.Host))
 					}
 				}
+			case "rest-requests":
+				// the REST layer is built on the same defaults and registry: drive its maximal / minimal requests too
+				restInit()
+				co := carryOver()
+				for i := 0; i < 12; i++ {
+					q := co[(c.Sub*11+i*7)%len(co)]
+					resp := restDo(nil, q.Method, q.uri(), q.body())
+					results = append(results, fmt.Sprint(resp.Status))
+				}
 			case "suites-parsed":
 				// strings the parser accepts but the registry does not hold, in several spellings, and rejected ones
 				for i, name := range []string{"OCRA-1:HOTP-SHA1-7:QN08", "ocra-1:hotp-sha1-6:qn08", "OCRA-1:HOTP-SHA256-8:QN08-T45S", "OCRA-1:HOTP-SHA512-9:C-QN10-PSHA1-S064-T1H", "OCRA-2:HOTP-SHA1-6:QN08", "OCRA-1:HOTP-SHA1-6:QA08-T1M"} {
@@ -328,7 +337,7 @@ func c12(r *ev.Run) {
 	if ReplayOnly {
 		return
 	}
-	ops := []string{"GenerateOCRA", "ValidateOCRA", "OCRAInput.Validate", "padBytes", "GenerateHOTP", "ValidateHOTP", "GenerateTOTP", "ValidateTOTP", "GenerateURL+Parse", "ParseURL-variants", "suites", "suites-parsed", "HexInputToOCRA"}
+	ops := []string{"GenerateOCRA", "ValidateOCRA", "OCRAInput.Validate", "padBytes", "GenerateHOTP", "ValidateHOTP", "GenerateTOTP", "ValidateTOTP", "GenerateURL+Parse", "ParseURL-variants", "suites", "suites-parsed", "HexInputToOCRA", "rest-requests"}
 	sliceOps := map[string]bool{"GenerateOCRA": true, "ValidateOCRA": true, "OCRAInput.Validate": true, "padBytes": true}
 	var n, trans int64
 	states := map[string]bool{irt.Digest(true): true}
